@@ -106,7 +106,7 @@ func (unpacker *RtpUnpackerAac) TryUnpackOne(list *RtpPacketList) (unpackedFlag 
 
 		seq := p.Packet.Header.Seq
 		p = p.Next
-		packetCount := 0
+		packetCount := 1 // 第一个fragment
 		for {
 			packetCount++
 			if p == nil {
